@@ -19,7 +19,7 @@ META = {
     'functions': ['rockit/sampling_method.py:SamplingMethod.discrete_system/intg_rk/intg_expl_euler/get_p_sys/eval_at_*',
                   'rockit/stage.py:Stage._ode/_diffeq/_expr_apply/sample', 'rockit/multiple_shooting.py:add_variables/add_constraints',
                   'rockit/single_shooting.py:add_variables/add_constraints'],
-    'bounds': 'quick: N<=3, M<=2, nx<=3, nu<=2; thorough: N<=5, M<=4; all real values of decision vector, parameters, t0, T; '
+    'bounds': 'quick: N<=3, M<=2, nx<=3, nu<=2; thorough: N<=5, M<=4 (SingleShooting: N*M<=4, <=2 with symbolic step lengths or purely polynomial nonlinear models; MultipleShooting with purely polynomial nonlinear models: M<=2); all real values of decision vector, parameters, t0, T; '
               'right-hand sides contain uninterpreted markers (any function of that arity)',
     'outside': 'CasADi built-in integrators; B-spline signals inside dynamics; IEEE rounding; non-rational grids with numeric horizon',
     'assumptions': ['reals for floats; constants identified up to 1e-10 relative', 'erf/atan2 markers stand for arbitrary total functions',
@@ -75,7 +75,24 @@ def instances(tier, seed):
             g = fam.G_FUN(N)
         if not fam.grid_is_rational(g) and not fam.horizon_symbolic(h):
             h = H[4]
-        add(fam.with_horizon(s, h), Cfg(rng.choice(['MS', 'SS']), N=N, M=M, intg=rng.choice(['rk', 'expl_euler']), grid=g))
+        meth = rng.choice(['MS', 'SS'])
+        # z3's normaliser does not finish on high-degree polynomial compositions (timeouts are not verdicts):
+        # SingleShooting nests all N*M steps, a symbolic horizon / free grid multiplies every stage by a variable step,
+        # a purely polynomial nonlinear model squares the degree at every RK stage
+        from ..dsl import has_wrap
+        exprs_ = (s.ode or []) + (s.nxt or [])
+        purepoly = max(fam.pdeg(e) for e in exprs_) >= 2 and not any(has_wrap(e, {'nl1', 'nl2'}) for e in exprs_)
+        symbolic_steps = fam.horizon_symbolic(h) or fam.grid_free_vars(g)
+        if meth == 'SS':
+            cap = 2 if (symbolic_steps or purepoly) else 4
+            while N * M > cap:
+                if M > 1:
+                    M -= 1
+                else:
+                    N -= 1
+        elif purepoly:
+            M = min(M, 1 if symbolic_steps else 2)
+        add(fam.with_horizon(s, h), Cfg(meth, N=N, M=M, intg=rng.choice(['rk', 'expl_euler']), grid=g), soft=True, timeout=60)
     return items
 
 
@@ -140,9 +157,11 @@ def run(item):
         ch2 = Checker(inst, timeout_ms=10000)
         refm = multi(inst, lambda tr: ref.gap_atoms(tr, mut='c3'))
         _, un_ref2, _ = ch2.match(refm, impl_atoms(inst), far=False)
+        from ..match import close as _close
+        differs = any(not _close(a[1], b[1]) for a, b in zip(refm[0], refa[0]))      # the mutation really changes the reference here
         if un_ref2:
             twins_ok += 1
-        else:
+        elif differs:
             twins_bad += 1
         for k in ('unsat', 'sat', 'unknown', 'queries', 'solver_s'):
             ch.stats[k] = ch.stats.get(k, 0) + ch2.stats.get(k, 0)
